@@ -9,13 +9,12 @@ P("C40",
             "engine, witness interleavings elsewhere; real monitor endpoints hammered over HTTP while the engine runs, in a race-instrumented "
             "subprocess whose race log is parsed into per-endpoint verdicts; outcome equality with an unmonitored run",
   level_text="c40_inspection_safe_parallel: for every handler program, every sequence of pause/continue/state/now/tick/component+field "
-             "inspection/buffers requests and EVERY interleaving, the parallel engine has no racy reachable state. Witnesses: c40_now_races, "
+             "inspection/buffers requests and EVERY interleaving, the parallel engine has no racy reachable state; c40_basic_requests_safe: pause/continue/state/buffers are race-free on both engines for every interleaving. Witnesses: c40_now_races, "
              "c40_tick_races, c40_serial_inspection_races (serial engine), c40_progress_races (both engines) — all confirmed by the race "
              "detector on the real code (known findings, one classifier per endpoint).",
   level_note="partial: the engine is modelled with one handler at a time (round-internal parallelism is C04); lock sets are assigned to "
              "accesses by reading the code (nowLock, queue check-out, port lock, progress-bar mutex, TickScheduler lock, pauseLock); the race "
-             "detector samples real interleavings. The serial engine's safe endpoints (pause, continue, state, buffers) are tied but not "
-             "proved race-free in Coq.",
+             "detector samples real interleavings.",
   assumptions=["Go memory model; the race detector reports exactly the unsynchronised conflicting accesses it observes",
                "goseth's serializer only reads the component's fields"],
   trusted=["modelled, not verified: monitoring2/monitor.go (pauseEngine, continueEngine, apiEngineState, now, tick, listComponentDetails, "
